@@ -1,6 +1,7 @@
 //! vh: conformance harness binding the TLA+ specifications in /verif/specs to
 //! the real rustradio code in /repo (built with --cfg rustradio_verif).
 mod common;
+mod graphs;
 mod mt;
 mod ring;
 
@@ -11,6 +12,7 @@ fn main() {
     let code = match cmd {
         "ring-replay" => ring::cmd_replay(rest),
         "ring-trace" => ring::cmd_trace(rest),
+        "graph-run" => graphs::cmd_run(rest),
         "mt-random" => mt::cmd_random(rest),
         "mt-replay" => mt::cmd_replay(rest),
         _ => {
